@@ -163,6 +163,8 @@ func NewStd(o *kernel.Outcome, tape *kernel.Tape, opt StdOptions) (*World, error
 		opt.ForceConfig(w.Conf)
 	}
 	w.Caps = Caps{ClientCredentials: cfg.Bool(3, 4), TokenExchange: cfg.Bool(3, 4), Device: cfg.Bool(3, 4), FromRequest: cfg.Bool(1, 3)}
+	capx := tape.Sub("cfg-caps-rare")
+	w.Caps.EndFromRequest, w.Caps.ExchangeVerifier = capx.Bool(1, 3), capx.Bool(1, 3) && w.Caps.TokenExchange
 	if opt.ForceCaps != nil {
 		w.Caps = *opt.ForceCaps
 	}
